@@ -8,6 +8,8 @@
 (*   TemporalMetricStorage::buildMetrics  (temporal_metric_storage.cc)     *)
 (*   AttributesHashMap::GetOrSetDefault / Set   (attributes_hashmap.h)     *)
 (* one action per API operation:                                           *)
+(*   AddReader    the next reader of Temps is registered (readers beyond   *)
+(*                InitReaders arrive in the middle of the history)         *)
 (*   Create       a(nother) handle for the one instrument                  *)
 (*   Add(h,s,v)   Record: for every view stream, file v under              *)
 (*                Canon(s, filter) in the storage's interval table         *)
@@ -43,6 +45,7 @@
 EXTENDS AttrSetKey
 
 CONSTANTS Temps,       \* sequence of reader temporalities, e.g. <<"delta", "cum">>
+          InitReaders, \* how many of them are registered before the history begins (the rest arrive late)
           Filters,     \* sequence (one per view stream) of allowed-key sets; {0} = no filter
           Limit,       \* cardinality limit given to the storage (DefLimit = none given)
           DefLimit,    \* stands for kAggregationCardinalityLimit (2000)
@@ -77,6 +80,7 @@ Pris == IF AllOrders
 OrdBy(S, pri) == SelectSeq(pri, LAMBDA x : x \in S)
 
 VARIABLES nh,      \* handles created
+          nr,      \* readers registered so far (1..nr collect)
           store,   \* [Stores -> [delta, dlim, seen, unrep, last]]
           nadd, ncol,
           \* ghosts: what the property talks about
@@ -89,7 +93,7 @@ VARIABLES nh,      \* handles created
           devUsed, flags,
           hist
 
-bvars == <<nh, store, nadd, ncol, rec, win, gtot, lastEnd, colsOf, bad, devUsed, flags>>
+bvars == <<nh, nr, store, nadd, ncol, rec, win, gtot, lastEnd, colsOf, bad, devUsed, flags>>
 vars  == <<bvars, hist>>
 
 Bump(m, a, v) == IF a \in DOMAIN m THEN [m EXCEPT ![a] = @ + v] ELSE m @@ (a :> v)
@@ -130,7 +134,7 @@ NewStore == [delta |-> Empty, dlim |-> Limit, seen |-> {},
              unrep |-> [r \in Readers |-> <<>>],
              last  |-> [r \in Readers |-> [has |-> FALSE, m |-> Empty, ts |-> 0]]]
 
-Init == /\ nh = 0 /\ nadd = 0 /\ ncol = 0
+Init == /\ nh = 0 /\ nr = InitReaders /\ nadd = 0 /\ ncol = 0
         /\ store = [s \in Stores |-> NewStore]
         /\ rec = [vw \in Views |-> Empty]
         /\ win = [r \in Readers |-> [vw \in Views |-> Empty]]
@@ -144,12 +148,19 @@ Log(e) == hist' = IF Hist THEN Append(hist, e) ELSE hist
 \* rare-step flags are only collected in generation runs (they would multiply the state graph)
 Fl(f) == IF Hist THEN flags \cup f ELSE flags
 
+AddReader ==
+  /\ nr < Len(Temps)
+  /\ nr' = nr + 1
+  /\ flags' = Fl({"grown"})
+  /\ UNCHANGED <<nh, store, nadd, ncol, rec, win, gtot, lastEnd, colsOf, bad, devUsed>>
+  /\ Log([e |-> "AddReader", t |-> Temps[nr + 1]])
+
 Create ==
   /\ nh < MaxHandles
   /\ nh' = nh + 1
   /\ devUsed' = devUsed \cup (IF D2 \in Dev /\ nh >= 1 THEN {D2} ELSE {})
   /\ flags' = Fl(IF nh >= 1 THEN {"dup"} ELSE {})
-  /\ UNCHANGED <<store, nadd, ncol, rec, win, gtot, lastEnd, colsOf, bad>>
+  /\ UNCHANGED <<nr, store, nadd, ncol, rec, win, gtot, lastEnd, colsOf, bad>>
   /\ Log([e |-> "Create", h |-> nh + 1])
 
 Add(h, s, v) ==
@@ -171,23 +182,27 @@ Add(h, s, v) ==
                        \cup (IF \E vw \in Views : Cardinality(A[vw]) < Cardinality({s[i][1] : i \in 1..Len(s)})
                                THEN {"filtered"} ELSE {}))
      /\ Log([e |-> "Add", h |-> h, attrs |-> s, v |-> v, hid |-> [vw \in Views |-> HId(A[vw])]])
-  /\ UNCHANGED <<nh, ncol, gtot, lastEnd, colsOf, bad, devUsed>>
+  /\ UNCHANGED <<nh, nr, ncol, gtot, lastEnd, colsOf, bad, devUsed>>
 
 (* ---- SyncMetricStorage::Collect + TemporalMetricStorage::buildMetrics ---- *)
 TblLimit == IF D4 \in Dev THEN DefLimit ELSE Limit
 CollectStore(st, r, t, pri) ==
   LET d    == st.delta
       st1  == [st EXCEPT !.delta = Empty, !.dlim = TblLimit]
-      fast == Len(Temps) = 1 /\ Temps[r] = "delta"
+      fast == nr = 1 /\ Temps[r] = "delta"
       ow   == D6 \in Dev
   IN IF fast
-       THEN [st    |-> [st1 EXCEPT !.last[r].ts = t],   \* (the unchanged tree never reads it: D1)
+       \* the repaired fast path keeps its collection time in last_reported_metrics_[collector], where the
+       \* general path finds it when a second reader arrives; the D1 tree never writes it (ts is kept
+       \* here only to know what the start should have been)
+       THEN [st    |-> [st1 EXCEPT !.last[r] = [has |-> @.has \/ D1 \notin Dev, m |-> @.m, ts |-> t]],
              emit  |-> DOMAIN d # {}, pts |-> d,
              start |-> IF D1 \in Dev THEN 0 ELSE st.last[r].ts, idealStart |-> st.last[r].ts,
              fl    |-> {"fast"}, idealPts |-> d]
        ELSE
-         LET un1   == IF DOMAIN d # {} THEN [q \in Readers |-> Append(st.unrep[q], d)] ELSE st.unrep
-             seen1 == IF DOMAIN d # {} THEN Readers ELSE st.seen
+         LET un1   == IF DOMAIN d # {} THEN [q \in Readers |-> IF q <= nr THEN Append(st.unrep[q], d) ELSE st.unrep[q]]
+                                       ELSE st.unrep
+             seen1 == IF DOMAIN d # {} THEN st.seen \cup (1..nr) ELSE st.seen
          IN IF r \notin seen1
               THEN [st |-> [st1 EXCEPT !.unrep = un1, !.seen = seen1], emit |-> FALSE, pts |-> Empty,
                     start |-> 0, idealStart |-> 0, fl |-> {"unseen"}, idealPts |-> Empty]
@@ -197,9 +212,11 @@ CollectStore(st, r, t, pri) ==
                             IF lr.has /\ Temps[r] = "cum" THEN MergeMap(m0, lr.m, TblLimit, pri, o) ELSE m0
                     merged == M(ow)
                     start  == IF lr.has /\ Temps[r] = "delta" THEN lr.ts ELSE 0
+                    \* D1 tree, reader moved from the fast path to this one: lr.ts is where it should start
+                    ideal  == IF Temps[r] = "delta" THEN lr.ts ELSE 0
                 IN [st |-> [st1 EXCEPT !.unrep = [un1 EXCEPT ![r] = <<>>], !.seen = seen1,
                                        !.last[r] = [has |-> TRUE, m |-> merged, ts |-> t]],
-                    emit |-> TRUE, pts |-> merged, start |-> start, idealStart |-> start,
+                    emit |-> TRUE, pts |-> merged, start |-> start, idealStart |-> ideal,
                     fl |-> {"general"} \cup (IF Len(un1[r]) >= 2 THEN {"stash2"} ELSE {})
                                        \cup (IF Len(un1[r]) = 0 THEN {"nonew"} ELSE {})
                                        \cup (IF lr.has /\ Temps[r] = "cum" /\ OVF \in DOMAIN lr.m THEN {"cum_merge_ovf"} ELSE {})
@@ -207,11 +224,17 @@ CollectStore(st, r, t, pri) ==
                     idealPts |-> M(FALSE)]
 
 \* the clauses of C06 / C08 for what reader r is handed for stream vw at collection t
+Late(r) == r > InitReaders
 Broken(r, vw, emitted, pts, start, t) ==
   LET W == IF Temps[r] = "delta" THEN win[r][vw] ELSE rec[vw]
       P == IF emitted THEN pts ELSE Empty
       own == DOMAIN P \ {OVF}
-  IN (IF Cardinality(DOMAIN W) < Limit /\ NonZero(P) # NonZero(W)
+  IN IF Late(r)      \* a late reader: only its intervals, and not the start of its first delta one
+       THEN (IF DOMAIN P # {} /\ ~(IF Temps[r] = "cum" THEN start = 0
+                                    ELSE lastEnd[r][vw] = 0 \/ (start \in colsOf[r] /\ start >= lastEnd[r][vw]))
+               THEN {"IntervalsAbut"} ELSE {})
+     ELSE
+     (IF Cardinality(DOMAIN W) < Limit /\ NonZero(P) # NonZero(W)
         THEN {IF Temps[r] = "delta" THEN "DeltaExact" ELSE "CumulativeIsRunningTotal"} ELSE {})
      \cup (IF Tot(P) # Tot(W) THEN {"TotalConserved"} ELSE {})
      \cup (IF Cardinality(DOMAIN P) > Limit THEN {"WithinLimit"} ELSE {})
@@ -226,40 +249,45 @@ PtsSeq(m) == LET ks == SeqOf(DOMAIN m) IN
 
 Collect(r, pri) ==
   /\ ncol < MaxCollect
-  /\ nh >= 1
+  /\ r <= nr
   /\ LET t == ncol + 1
-         C == [vw \in RegViews |-> CollectStore(store[RegStore(vw)], r, t, pri)]
-         emitted(vw) == vw \in RegViews /\ C[vw].emit
+         RegNow == IF nh = 0 THEN {} ELSE RegViews          \* a collection before the instrument exists
+         C == [vw \in RegNow |-> CollectStore(store[RegStore(vw)], r, t, pri)]
+         emitted(vw) == vw \in RegNow /\ C[vw].emit
          pts(vw) == IF emitted(vw) THEN C[vw].pts ELSE Empty
          brk == UNION {Broken(r, vw, emitted(vw), pts(vw), IF emitted(vw) THEN C[vw].start ELSE 0, t) : vw \in Views}
      IN
      /\ ncol' = t
-     /\ store' = [st \in Stores |-> IF \E vw \in RegViews : RegStore(vw) = st THEN C[st[2]].st ELSE store[st]]
+     /\ store' = [st \in Stores |-> IF \E vw \in RegNow : RegStore(vw) = st THEN C[st[2]].st ELSE store[st]]
      /\ win' = [win EXCEPT ![r] = [vw \in Views |-> Empty]]
      /\ gtot' = [gtot EXCEPT ![r] = [vw \in Views |-> @[vw] + Tot(pts(vw))]]
      /\ lastEnd' = [lastEnd EXCEPT ![r] = [vw \in Views |-> IF DOMAIN pts(vw) # {} THEN t ELSE @[vw]]]
      /\ colsOf' = [colsOf EXCEPT ![r] = @ \cup {t}]
      /\ bad' = bad \cup brk
      /\ devUsed' = devUsed
-          \cup (IF \E vw \in RegViews : emitted(vw) /\ DOMAIN pts(vw) # {} /\ C[vw].start # C[vw].idealStart THEN {D1} ELSE {})
+          \cup (IF \E vw \in RegNow : emitted(vw) /\ DOMAIN pts(vw) # {} /\ C[vw].start # C[vw].idealStart THEN {D1} ELSE {})
           \cup (IF D3 \in Dev /\ NV >= 2 THEN {D3} ELSE {})
-          \cup (IF D4 \in Dev /\ \E vw \in RegViews : Cardinality(DOMAIN pts(vw)) > Limit THEN {D4} ELSE {})
-          \cup (IF \E vw \in RegViews : emitted(vw) /\ C[vw].pts # C[vw].idealPts THEN {D6} ELSE {})
-     /\ flags' = Fl(UNION {C[vw].fl : vw \in RegViews}
-                       \cup (IF \E vw \in RegViews : OVF \in DOMAIN pts(vw) THEN {"fold_out"} ELSE {})
-                       \cup (IF \E vw \in RegViews : \E a \in DOMAIN pts(vw) : pts(vw)[a] = 0 THEN {"zero"} ELSE {})
+          \cup (IF D4 \in Dev /\ \E vw \in RegNow : Cardinality(DOMAIN pts(vw)) > Limit THEN {D4} ELSE {})
+          \cup (IF \E vw \in RegNow : emitted(vw) /\ C[vw].pts # C[vw].idealPts THEN {D6} ELSE {})
+     /\ flags' = Fl(UNION {C[vw].fl : vw \in RegNow}
+                       \cup (IF \E vw \in RegNow : OVF \in DOMAIN pts(vw) THEN {"fold_out"} ELSE {})
+                       \cup (IF \E vw \in RegNow : \E a \in DOMAIN pts(vw) : pts(vw)[a] = 0 THEN {"zero"} ELSE {})
                        \cup (IF "dup" \in flags /\ "add_h2" \in flags THEN {"dup_collected"} ELSE {})
                        \cup (IF NV >= 2 /\ \E vw \in Views : DOMAIN pts(vw) # {} THEN {"multi_view"} ELSE {})
-                       \cup (IF \E vw \in RegViews : emitted(vw) /\ DOMAIN pts(vw) # {} /\ C[vw].idealStart > 0 THEN {"later_interval"} ELSE {}))
+                       \cup (IF "grown" \in flags /\ r <= InitReaders /\ \E vw \in RegNow : emitted(vw) /\ DOMAIN pts(vw) # {} /\ C[vw].idealStart > 0
+                               THEN {"old_reader_after_growth"} ELSE {})
+                       \cup (IF Late(r) /\ \E vw \in RegNow : DOMAIN pts(vw) # {} THEN {"late_reader_points"} ELSE {})
+                       \cup (IF nh = 0 THEN {"collect_before_create"} ELSE {})
+                       \cup (IF \E vw \in RegNow : emitted(vw) /\ DOMAIN pts(vw) # {} /\ C[vw].idealStart > 0 THEN {"later_interval"} ELSE {}))
      /\ Log([e |-> "Collect", r |-> r, k |-> t,
              streams |-> LET vs == SelectSeq([i \in 1..NV |-> i], LAMBDA vw : emitted(vw)) IN
                          [i \in 1..Len(vs) |-> [vw |-> vs[i], t |-> Temps[r], start |-> C[vs[i]].start,
                                                 end |-> t, pts |-> PtsSeq(C[vs[i]].pts)]]])
-  /\ UNCHANGED <<nh, nadd, rec>>
+  /\ UNCHANGED <<nh, nr, nadd, rec>>
 
 DoAdd == \E h \in 1..MaxHandles, s \in AttrSeqs, v \in Amounts : Add(h, s, v)
 DoCollect == \E r \in Readers, pri \in Pris : Collect(r, pri)
-Next == Create \/ DoAdd \/ DoCollect
+Next == Create \/ AddReader \/ DoAdd \/ DoCollect
 
 Spec == Init /\ [][Next]_vars
 
@@ -267,15 +295,15 @@ Spec == Init /\ [][Next]_vars
 \* what the mechanism still holds for reader r / stream vw (ideal registry: storage <<1, vw>>)
 MechPending(r, vw) ==
   LET st == store[<<1, vw>>] IN
-  Tot(st.delta) + (IF Len(Temps) = 1 /\ Temps[r] = "delta" THEN 0 ELSE TotList(st.unrep[r]))
+  Tot(st.delta) + (IF nr = 1 /\ Temps[r] = "delta" THEN 0 ELSE TotList(st.unrep[r]))
 \* C06: for a delta reader, what it was given plus what is still waiting for it is what was recorded,
 \* whatever the other readers did in between (readers are independent)
 DeltaConservation ==
-  (devUsed = {}) => \A r \in Readers, vw \in Views :
+  (devUsed = {}) => \A r \in 1..InitReaders, vw \in Views :
        Temps[r] = "delta" => gtot[r][vw] + MechPending(r, vw) = Tot(rec[vw])
 \* the ghost window equals the mechanism's pending data (every measurement falls in exactly one interval)
 WindowIsPending ==
-  (devUsed = {}) => \A r \in Readers, vw \in Views : Tot(win[r][vw]) = MechPending(r, vw)
+  (devUsed = {}) => \A r \in 1..InitReaders, vw \in Views : Tot(win[r][vw]) = MechPending(r, vw)
 \* per-collection clauses (values exact without folding, running total, abutting intervals, limit, ...)
 NothingBroken == (devUsed = {}) => bad = {}
 \* the interval table itself never exceeds its limit and has at most one overflow series
@@ -284,7 +312,7 @@ TableWithinLimit ==
 \* with Dev # {}: every way of breaking the property goes through a listed deviation
 OnlyListedDeviations == bad # {} => devUsed # {}
 
-TypeOK == nh \in 0..MaxHandles /\ nadd \in 0..MaxAdd /\ ncol \in 0..MaxCollect
+TypeOK == nh \in 0..MaxHandles /\ nr \in InitReaders..Len(Temps) /\ nadd \in 0..MaxAdd /\ ncol \in 0..MaxCollect
 
 (* ---- behaviour export ---------------------------------------------------- *)
 View == bvars
@@ -305,5 +333,8 @@ WitLater       == Wit("later_interval")
 WitZero        == Wit("zero")
 WitDupKey      == Wit("dupkey")
 WitFiltered    == Wit("filtered")
+WitOldAfterGrowth == Wit("old_reader_after_growth")
+WitLateReader     == Wit("late_reader_points")
+WitBeforeCreate   == Wit("collect_before_create")
 WitBad         == (bad # {} /\ LastIsCollect) => (PrintT(<<"BEH", ToJson(hist)>>) /\ FALSE)
 =============================================================================
